@@ -40,6 +40,7 @@ type c09Result struct {
 	Concurrent       int64          `json:"concurrent_decodes"`
 	RoundTrips       int64          `json:"round_trips"`
 	ReencodedDiffer  int64          `json:"reencoded_bytes_differ_info"`
+	StoreLoads       int64          `json:"records_loaded_through_the_store_path"`
 	RespRoundTrips   int64          `json:"response_round_trips"`
 	Prefixes         int64          `json:"prefixes_checked"`
 	PrefixesRejected int64          `json:"prefixes_rejected"`
@@ -165,6 +166,14 @@ func c09Fill(resp *cache.HTTPResponse, accept string) fillOut {
 	return fillOut{CE: ce, Body: hx.Sha(body) + ":" + strconv.Itoa(len(body)), Hdr: []string{fmt.Sprintf("%d lines sha %s", len(hs), hx.Sha([]byte(strings.Join(hs, "\n"))))}, Status: resp.StatusCode}
 }
 
+var (
+	c09StoreOnce sync.Once
+	c09StoreMem  *hx.MemStore
+	// c09StoreLoad: the entry a dispatcher bound to that store builds for key (status, has a response, age,
+	// went to fetching, and a function completing the fetch it may have started)
+	c09StoreLoad func(key []byte) (string, bool, int, bool, func())
+)
+
 // c09RoundTrip entry-level and response-level round trip of one generated entry
 func c09RoundTrip(res *c09Result, s c09Spec, seed int64, clock *hx.Clock) {
 	viol := func(kind string, params map[string]string, text string) {
@@ -220,6 +229,37 @@ func c09RoundTrip(res *c09Result, s c09Spec, seed int64, clock *hx.Clock) {
 	if err := hc2.FromBytes(data); err != nil {
 		viol("roundtrip_decode_failed", map[string]string{"level": "entry", "state": s.State}, "FromBytes(Bytes(e)) failed: "+err.Error())
 		return
+	}
+	// the same record handed to a fresh entry by the store-load path (what a lookup after a restart or an
+	// eviction does): it must behave as the original does
+	// (a record whose expiry time is not positive - a clock before 1970 in the generator - is by design what the
+	// store path treats as "no expiry set", i.e. invalid: such cases are left to the decoder-level comparison)
+	if (s.State == "hit" || s.State == "hfp") && s.CreatedAt+int64(s.TTL) > 0 {
+		c09StoreOnce.Do(func() {
+			c09StoreMem = hx.NewMemStore("mem://c09rt")
+			c09StoreMem.NoLog = true
+			d := cache.NewDispatcher(cache.DispatcherOption{Name: "c09rt", Size: 4096, HitForPass: 300, Store: "mem://c09rt"})
+			c09StoreLoad = func(key []byte) (string, bool, int, bool, func()) {
+				e := d.GetHTTPCache(key)
+				st, rp, age := e.GetWithAge()
+				d.RemoveHTTPCache(key)
+				return fmt.Sprint(st), rp != nil, age, st == cache.StatusFetching, func() { e.HitForPass(1) }
+			}
+		})
+		key := fmt.Sprintf("GET c09.example /rt/%d", seed)
+		c09StoreMem.Put(key, append([]byte{}, data...))
+		clock.Set(s.CreatedAt)
+		st1, r1, age1 := hc.GetWithAge()
+		st3, has3, age3, fetching3, finish := c09StoreLoad([]byte(key))
+		res.StoreLoads++
+		if fetching3 && st1 != cache.StatusFetching {
+			// (the entry went to fetching: complete it so that nothing stays pending)
+			finish()
+		}
+		if fmt.Sprint(st1) != st3 || age1 != age3 || (r1 != nil) != has3 {
+			viol("roundtrip_behaviour_differs", map[string]string{"level": "store_load", "state": s.State, "header_class": hdrClass}, fmt.Sprintf("original status=%v age=%d response=%v; entry loaded from the store status=%v age=%d response=%v (upstream status code %d)", st1, age1, r1 != nil, st3, age3, has3, s.Status))
+			return
+		}
 	}
 	data2, _ := hc2.Bytes()
 	if !bytes.Equal(data, data2) {
@@ -543,7 +583,7 @@ func c09ConcurrentDecode(res *c09Result, rnd *rand.Rand, clock *hx.Clock) {
 }
 
 func c09(r *hx.Run) {
-	r.Rule = "child process per batch. Structured entries (state hit/hit-for-pass/fresh, 0-200 header lines incl. multi-valued, empty, UTF-8, quotes, tabs and (rarely) non-UTF-8 bytes, every subset of raw/gzip/br variants, bodies 0..2 MiB, profile names, min lengths, filters, clock values 0..2^40 and negative, lifetimes up to 2^31-1): Bytes -> FromBytes must give identical re-encoded bytes and identical Get/Age/Fill (6 Accept-Encoding values) at +0,+1,+T,+T+1 s. Directed valid records (8 MiB bodies compressed 200x and more, a 60 kB header set) must round-trip and decode within the allocation bound. Byte level on 200 valid records: truncation at every offset must error; bit flips, length-field edits (0, +-1, 2^31, 2^32-1..), splices, random strings, crafted filter fields: no panic, no hang (20 s), allocation <= 32x input + 1 MiB (runtime.MemStats.TotalAlloc delta). Non-trivial/distinct = distinct entry shape / mutation class."
+	r.Rule = "child process per batch. Structured entries (state hit/hit-for-pass/fresh, 0-200 header lines incl. multi-valued, empty, UTF-8, quotes, tabs and (rarely) non-UTF-8 bytes, every subset of raw/gzip/br variants, bodies 0..2 MiB, profile names, min lengths, filters, clock values 0..2^40 and negative, lifetimes up to 2^31-1): Bytes -> FromBytes must give identical re-encoded bytes and identical Get/Age/Fill (6 Accept-Encoding values) at +0,+1,+T,+T+1 s; every record with a positive expiry time is also handed to a fresh entry through the store-load path (dispatcher over a scripted store) and must answer as the original (status, Age, response present). Directed valid records (8 MiB bodies compressed 200x and more, a 60 kB header set) must round-trip and decode within the allocation bound. Byte level on 200 valid records: truncation at every offset must error; bit flips, length-field edits (0, +-1, 2^31, 2^32-1..), splices, random strings, crafted filter fields: no panic, no hang (20 s), allocation <= 32x input + 1 MiB (runtime.MemStats.TotalAlloc delta). Non-trivial/distinct = distinct entry shape / mutation class."
 	r.Assume = []string{"a truncated bare HTTPResponse record is not judged (the persisted record of the statement is the entry)", "allocation is measured with 2 OS threads and includes the harness goroutine's own allocations (small constant)"}
 	exe, _ := os.Executable()
 	batches := r.Pick(1, 8)
@@ -584,6 +624,7 @@ func c09(r *hx.Run) {
 		total.RoundTrips += res.RoundTrips
 		r.Add("concurrent_decodes_of_records_with_different_settings", res.Concurrent)
 		r.Add("reencoded_bytes_differ_info", res.ReencodedDiffer)
+		r.Add("records_loaded_through_the_store_path", res.StoreLoads)
 		total.RespRoundTrips += res.RespRoundTrips
 		total.Prefixes += res.Prefixes
 		total.DirectedValid += res.DirectedValid
